@@ -551,6 +551,8 @@ func runC11(r *Run) {
 			r.Check(okW[FuncName(fw.Fn)], "C11.4", "write(lastSentVersion)@"+FuncName(fw.Fn), w.InstrPos(fw.Instr), "last sent version bookkeeping")
 		}
 	}
+	r.Rule("C11.8", "clone independence of the published view types: every field is copied, no map/slice field (directly or in a nested view struct) is the receiver's own storage or a re-slice of it, map elements are cloned or freshly made (ValidatorSet is shared on purpose: immutable)")
+	viewCloneIndependence(r, "C11.8")
 	r.Rule("C11.7", "the force-send slot (offered without a height/round test, its version becoming lastSentVersion) is either never filled in production or cleared on every round entrance, so a view of the round just left cannot be delivered into the next round and suppress its updates")
 	forcedViewDiscipline(r, "C11.7")
 	r.Expect("C11.4", 8, "send discipline")
